@@ -297,6 +297,34 @@ func RunC16(c *Ctx) {
 				}
 			}
 		})
+		// C0. strings returned WITHOUT a scratch buffer own their memory too: the caller refills its
+		// input buffer and the string must stay what it was (seeded change C06r7-m2: the escape-free
+		// fast path of ReadString(data, nil) returned a string backed by the input)
+		c.Guarded(cs, "ReadString/DecodeString(nil scratch) ownership", func() {
+			w := append([]byte(nil), d...)
+			s1, _, e1 := rjson.ReadString(w, nil)
+			var s2 string
+			_, e2 := rjson.DecodeString(w, &s2, nil)
+			b3, _, e3 := rjson.ReadStringBytes(w, nil)
+			c.Rec.Evals(3)
+			if e1 != nil {
+				return
+			}
+			snap1, snap2, snap3 := strings.Clone(s1), strings.Clone(s2), append([]byte(nil), b3...)
+			for i := range w {
+				w[i] = 0xEE
+			}
+			c.Rec.C("strings_returned_without_scratch_rechecked_after_the_input_was_overwritten")
+			if s1 != snap1 {
+				c.Rec.Violate(cs, "string returned by ReadString(data, nil) changed after the input was overwritten", "ReadString", fmt.Sprintf("%q", snap1), fmt.Sprintf("%q", s1))
+			}
+			if e2 == nil && s2 != snap2 {
+				c.Rec.Violate(cs, "string stored by DecodeString(data, v, nil) changed after the input was overwritten", "DecodeString", fmt.Sprintf("%q", snap2), fmt.Sprintf("%q", s2))
+			}
+			if e3 == nil && !bytes.Equal(b3, snap3) {
+				c.Rec.Violate(cs, "bytes returned by ReadStringBytes(data, nil) changed after the input was overwritten", "ReadStringBytes", fmt.Sprintf("%q", snap3), fmt.Sprintf("%q", b3))
+			}
+		})
 		// C'. the ValueReader's own scratch (field names, strings, spare containers) is a scratch buffer
 		// too: a reader used on every earlier input must return what a brand-new one returns
 		// (seeded changes C16r5-m1: field name copied into len instead of cap; C16r5-m2: a map left
